@@ -153,12 +153,12 @@ PROPS["C15"] = {
 
 PROPS["C02"] = {
     "level": "proof",
-    "verus": ["texlang_macro", "texlang_macrocall", "stdlib_def", "stdext_kmp"],
+    "verus": ["texlang_macro", "texlang_macrocall", "stdlib_def", "stdlib_defprim", "stdext_kmp"],
     "kani": [],
     "witness_always": ["texlang_macro"],
     "witness_bound": {"texlang_macro": "real VM vs an executable transcription of TeX's macro_call: prefix {none, one token} x parameters {undelimited, delimited by 1-2 tokens, trailing #{} x 1-2 parameters x 10 argument shapes (empty, token, group, several groups, nested groups, leading spaces) x 3-4 replacement texts, plus 3 to 9 parameters (mixed kinds, every parameter used, reversed and repeated, with and without a trailing #{) = 4618 definitions+calls, tokens after the call included"},
     "unverified_callers": [
-        "PROVED: should_trim_outer_braces_if_present, parse_delimited_argument, parse_undelimited_argument (+ SpacesUnexpanded::parse_impl, finish_parsing_balanced_tokens), remove_tokens_from_stream, perform_replacement, the KMP matcher. def.rs parse_prefix_and_parameters (== TeX 474-476 incl. #{ and the two error recoveries, never more than nine parameters) and parse_replacement_text (== TeX 477-479: ## -> one #, #k only for k <= number of parameters, illegal parameter number = one error + the # kept + the offending token read again, nested braces, the brace of a trailing #{ appended; its local closure `push` is hoisted to a function by rule R22 and proved; Vec::last_mut is a trusted stub). Macro::call and Parameter::parse_argument (unit texlang_macrocall, over the contracts above, ASSUMED there with the same text): a call whose prefix matches is replaced by the replacement text with #i -> the i-th argument, each parameter binding what TeX binds (bind1: undelimited = next non-blank token or the contents of the next group; delimited = shortest run before the FIRST position where the delimiter ends at brace depth 0 (1 for #{), outer braces dropped iff the run is a single group), the rest of the input untouched; a prefix mismatch = one error, the offending token consumed, no expansion; the index arithmetic (start+1, len-1), the range indexing and the unwrap of the argument slices cannot panic. BOUNDED (witness driver, not proof): the reversal of every token run after parse_replacement_text (iter_mut loop in the \\def primitive)",
+        "PROVED: should_trim_outer_braces_if_present, parse_delimited_argument, parse_undelimited_argument (+ SpacesUnexpanded::parse_impl, finish_parsing_balanced_tokens), remove_tokens_from_stream, perform_replacement, the KMP matcher. def.rs parse_prefix_and_parameters (== TeX 474-476 incl. #{ and the two error recoveries, never more than nine parameters) and parse_replacement_text (== TeX 477-479: ## -> one #, #k only for k <= number of parameters, illegal parameter number = one error + the # kept + the offending token read again, nested braces, the brace of a trailing #{ appended; its local closure `push` is hoisted to a function by rule R22 and proved; Vec::last_mut is a trusted stub). Macro::call and Parameter::parse_argument (unit texlang_macrocall, over the contracts above, ASSUMED there with the same text): a call whose prefix matches is replaced by the replacement text with #i -> the i-th argument, each parameter binding what TeX binds (bind1: undelimited = next non-blank token or the contents of the next group; delimited = shortest run before the FIRST position where the delimiter ends at brace depth 0 (1 for #{), outer braces dropped iff the run is a single group), the rest of the input untouched; a prefix mismatch = one error, the offending token consumed, no expansion; the index arithmetic (start+1, len-1), the range indexing and the unwrap of the argument slices cannot panic. parse_and_set_macro, def_primitive_fn, gdef_primitive_fn (unit stdlib_defprim, over the two scanners ASSUMED with the same text): \\def / \\gdef consume the name, the parameter text and the replacement text and bind the name to a Macro holding exactly what was scanned - prefix, one parameter per #n with its delimiter and KMP table, the replacement text with every token run reversed (the representation Macro::call's contract interprets) -, \\gdef globally, no other name touched, nothing defined when the name is missing; lemma_def_builds_callable_macro: that macro satisfies Macro::call's well-formedness precondition. The map / collect over the raw parameters and the iter_mut loop are desugared by rules R28 / R29 over trusted stubs (take the first element of a Vec, Vec::reverse). BOUNDED (witness driver, not proof): the name parser <Option<CommandRef> as Parsable> (trusted oracle), command::Map::insert_macro's Rc wrapping (insert itself proved in texlang_cmdmap)",
         "\\long/\\outer, the VM expansion loop",
     ],
     "assumptions": [],
@@ -166,7 +166,7 @@ PROPS["C02"] = {
 PROPS["C09"] = {
     "level": "proof",
     "only_kinds": ["overflow", "div-by-zero", "bounds", "precondition", "shift", "assertion", "concrete-counterexample", "kani"],
-    "verus": ["common_scaled", "texlang_parse_int", "texlang_parse_keyword", "texlang_parse_dimen", "texlang_parse_glue", "stdlib_math", "stdext_groupingmap", "stdext_kmp", "texlang_savestack", "texlang_cmdmap", "texlang_vmgroups", "stdlib_prefix", "stdlib_cond", "stdlib_expandafter", "texlang_macro", "texlang_macrocall", "stdlib_def"],
+    "verus": ["common_scaled", "texlang_parse_int", "texlang_parse_keyword", "texlang_parse_dimen", "texlang_parse_glue", "stdlib_math", "stdext_groupingmap", "stdext_kmp", "texlang_savestack", "texlang_cmdmap", "texlang_vmgroups", "stdlib_prefix", "stdlib_cond", "stdlib_expandafter", "texlang_macro", "texlang_macrocall", "stdlib_def", "stdlib_defprim"],
     "kani": [],
     "witness_always": ["texlang_parse_num", "stdlib_totality"],
     "witness_fns": {"texlang_parse_num": ["parse_impl", "parse_constant", "scan_dimen"]},
